@@ -4,7 +4,7 @@ C04 — Register caching is observationally transparent.
 Property theorems only.  Vocabulary (`Coherent`, `Declared`, `PortDeclared`, `HistOk`,
 `LogSub`, `Inv`, `Rel`) is in `CamVerif.Spec.CacheSpec`; the model
 (`CamVerif.Model.Cache`) is the register/cache layer of `cameleon-genapi` after the repairs
-of F-C04-1 and F-C04-2; helper lemmas are in `CamVerif.Proofs.C04{Store,Inv,Sim,Ops,Keeps,Via}`.
+of F-C04-1, F-C04-2, F-C04-3 and F-C04-4; helper lemmas are in `CamVerif.Proofs.C04{Store,Inv,Sim,Ops,Keeps,Via,Table,DynKey,DynSteps}`.
 
 Everything is quantified over every description `g` with `Declared p g`, every device
 (image, static rejection ranges, rejected write ordinals, prior log), every history and both
@@ -22,7 +22,7 @@ Which theorem needs what: `sim`, `log_sub`, `prim_preserve*` need `Declared` (+ 
 the NoCache theorems need only `NoCacheAbsent`, proved for every description and history
 (`nocache_absent_invariant`); `own_write_visible` needs nothing.
 -/
-import CamVerif.Proofs.C04Via
+import CamVerif.Proofs.C04DynSteps
 namespace CamVerif.C04
 open CamVerif CamVerif.Cache
 
@@ -593,6 +593,275 @@ example :
         ⟨[0x11, 0x11, 0x11, 0x11], [], [], [], [(0, (2, []))], 0, []⟩)
       [.value 1, .setValue 1 (.int 0x22222222), .value 1]).1 =
       [.ok (.int 0x11111111), .err .device, .ok (.int 0x11112222)] := by
+  decide +kernel
+
+/-! ## 9. `clear_cache` keeps the `pInvalidator` declarations
+
+`DefaultCacheStore::clear` (`store.rs`) empties the value store only; the `invalidators` table
+built by the parser stays.  (A `clear` that resets the whole store to `Default` would make every
+later `invalidate_cache_by` a no-op: registers cached after the clear would never be dropped.) -/
+
+/-- **clear_preserves_invalidators** (primitive level, every state): `clear_cache` removes every
+cache entry, leaves the invalidator table (hence the targets of every `invalidate_cache_by`) and
+the device untouched. -/
+theorem clear_preserves_invalidators (s : St Store) :
+    (clearCache defaultCache s).2.cache.invalidators = s.cache.invalidators ∧
+    (∀ m, (clearCache defaultCache s).2.cache.targets m = s.cache.targets m) ∧
+    (∀ n a l, (clearCache defaultCache s).2.cache.get n a l = none) ∧
+    (clearCache defaultCache s).2.dev = s.dev :=
+  ⟨invalidators_clear _, fun m => targets_congr (invalidators_clear _) m,
+   fun n a l => get_clear _ n a l, rfl⟩
+
+/-- **invalidators_invariant**: on EVERY description (declared or not), device and history —
+with `clear_cache` anywhere in it — the invalidator table after the history is the one the
+parser built, so `TableOk` (every `pInvalidator` registration is present) holds in every
+reachable state. -/
+theorem invalidators_invariant (p : Profile) (g : Graph) (d : Dev) (h : List Op) :
+    (runHist defaultCache p g (initDefault g d) h).2.cache.invalidators = (buildStore g).invalidators ∧
+      TableOk g (runHist defaultCache p g (initDefault g d) h).2.cache :=
+  have := invalidators_runHist p g (initDefault g d) h
+  ⟨this, tableOk_congr this (buildStore_table g)⟩
+
+/-- … and from any state, for one operation or a history. -/
+theorem invalidators_preserved (p : Profile) (g : Graph) (s : St Store) (op : Op) (h : List Op) :
+    (run defaultCache p g s op).2.cache.invalidators = s.cache.invalidators ∧
+      (runHist defaultCache p g s h).2.cache.invalidators = s.cache.invalidators :=
+  ⟨invalidators_run p g s op, invalidators_runHist p g s h⟩
+
+/-- Consequence: in every reachable state of every description — after any number of clears — a
+feature's / register's `invalidate_cache_by(f)` still drops every register that lists `f`. -/
+theorem listers_dropped_after_any_history (p : Profile) (g : Graph) (d : Dev) (h : List Op)
+    (f t : NodeId) (rt : Reg) (ht : g[t]? = some (.reg rt)) (hf : f ∈ rt.invs) (a : Int) (l : Nat) :
+    (invBy defaultCache f (runHist defaultCache p g (initDefault g d) h).2).2.cache.get t a l = none :=
+  feature_invalidate_clears_listers (invalidators_invariant p g d h).2 f t rt ht hf a l
+
+/-- **clear_cache is a no-op for the observer**: clearing the cache of a state related to an
+uncached state leaves it related to the SAME uncached state, so every declared continuation
+returns what the uncached build returns without the clear. -/
+theorem clear_cache_noop {p : Profile} {g : Graph} {sC : St Store} {sU : St Unit}
+    (hR : Rel p g sC sU) (h : List Op) (hH : DeclaredFor p g h) :
+    (run defaultCache p g sC .clearCache).1 = .ok .unit ∧
+      Rel p g (run defaultCache p g sC .clearCache).2 sU ∧
+      (runHist defaultCache p g (run defaultCache p g sC .clearCache).2 h).1 =
+        (runHist sinkCache p g sU h).1 ∧
+      (runHist defaultCache p g (run defaultCache p g sC .clearCache).2 h).2.dev.mem =
+        (runHist sinkCache p g sU h).2.dev.mem :=
+  have hR' : Rel p g (run defaultCache p g sC .clearCache).2 sU := ⟨hR.1, inv_clear hR.2⟩
+  have := sim_via_from h hH hR'
+  ⟨rfl, hR', this.1, this.2.1⟩
+
+/-- **sim over histories with arbitrary clears**: inserting `clear_cache` anywhere in a history
+keeps it inside `HistOk` / `DeclaredFor`, so `sim` and `sim_via` apply to it. -/
+theorem sim_clear_anywhere (p : Profile) (g : Graph) (hD : Declared p g) (d : Dev) (h1 h2 : List Op)
+    (hH : HistOk g (h1 ++ h2)) :
+    (runHist defaultCache p g (initDefault g d) (h1 ++ .clearCache :: h2)).1 =
+        (runHist sinkCache p g (initSink d) (h1 ++ .clearCache :: h2)).1 ∧
+      (runHist defaultCache p g (initDefault g d) (h1 ++ .clearCache :: h2)).2.dev.mem =
+        (runHist sinkCache p g (initSink d) (h1 ++ .clearCache :: h2)).2.dev.mem :=
+  sim p g hD d _ (histOk_insert_clear hH)
+
+theorem sim_via_clear_anywhere (p : Profile) (g : Graph) (d : Dev) (h1 h2 : List Op)
+    (hH : DeclaredFor p g (h1 ++ h2)) :
+    (runHist defaultCache p g (initDefault g d) (h1 ++ .clearCache :: h2)).1 =
+        (runHist sinkCache p g (initSink d) (h1 ++ .clearCache :: h2)).1 ∧
+      (runHist defaultCache p g (initDefault g d) (h1 ++ .clearCache :: h2)).2.dev.mem =
+        (runHist sinkCache p g (initSink d) (h1 ++ .clearCache :: h2)).2.dev.mem :=
+  sim_via p g d _ (declaredFor_insert_clear hH)
+
+/-- populate, clear, re-populate, write through the overlapping register: the entry cached
+AFTER the clear is still invalidated (this is what a `clear` that wipes the table breaks) -/
+example :
+    (runHist defaultCache Profile.dev exGraph (initDefault exGraph exDev)
+      [.value 2, .clearCache, .value 2, .setValue 3 (.int (-2)), .value 2]).1 =
+      [.ok (.int 0x04030201), .ok .unit, .ok (.int 0x04030201), .ok .unit, .ok (.int 0xFEFF0201)] ∧
+    (runHist defaultCache Profile.dev exGraph (initDefault exGraph exDev)
+      [.value 2, .clearCache, .value 2]).2.cache.invalidators = (buildStore exGraph).invalidators ∧
+    (runHist defaultCache Profile.dev exGraph (initDefault exGraph exDev)
+      [.value 2, .clearCache, .value 2]).2.dev.log.length = 2 := by
+  decide +kernel
+
+/-! ## 10. `Command::execute` whose device write is applied but reported as failed
+
+`CommandNode::execute` (`command.rs:54-64`) runs `invalidate_cache_by(self)` BEFORE it forwards
+the write along `pValue`, so the registers that list the Command node are dropped even when the
+write comes back as an error (acknowledge lost, partially applied, rejected). -/
+
+/-- **execute_invalidates_before_write**: for a Command `n` whose `execute` is declared
+(`DeclaredFor` vocabulary: `opOk p g (.execute n)`), from any related pair of states and on every
+device of the faulty-device alphabet: the cached and the uncached build return the same result
+(`.ok`, or `.err .device` for a write the device applied but did not acknowledge), the states stay
+related (equal device bytes, coherent cache), and every register that lists the Command node and
+is outside the operation's footprint has NO cache entry afterwards — whatever the result was. -/
+theorem execute_invalidates_before_write {p : Profile} {g : Graph} {n pv : NodeId} {cv : Int}
+    (hn : g[n]? = some (.command pv cv)) (hop : opOk p g (.execute n) = true)
+    {sC : St Store} {sU : St Unit} (hR : Rel p g sC sU) :
+    (run defaultCache p g sC (.execute n)).1 = (run sinkCache p g sU (.execute n)).1 ∧
+      Rel p g (run defaultCache p g sC (.execute n)).2 (run sinkCache p g sU (.execute n)).2 ∧
+      ∀ t rt, g[t]? = some (.reg rt) → n ∈ rt.invs → protectedOf g pv t = true →
+        ∀ a l, (run defaultCache p g sC (.execute n)).2.cache.get t a l = none := by
+  obtain ⟨h1, h2, h3⟩ := execute_simA hn hop hR
+  exact ⟨h1, h2, fun t rt ht hm hu a l => h3 t ⟨hu, rt, ht, n, List.mem_cons_self, hm⟩ a l⟩
+
+/-- the device side of "applied but failed": the `k`-th write attempt planned as `k ↦ (m, junk)`
+with `m ≥ len` on an otherwise acceptable range reports an error and leaves exactly the written
+bytes in the image. -/
+theorem lost_ack_write_applied (d : Dev) (a : Int) (data junk : Bytes) {m : Nat}
+    (hal : d.allowed a data.length = true) (hp : alGet d.wcount d.rejP = some (m, junk))
+    (hm : data.length ≤ m) :
+    (d.write a data).1 = .err .device ∧ (d.write a data).2.mem = patch d.mem a.toNat data :=
+  write_lost_ack d a data junk hal hp hm
+
+/-- A cached register (node 1) that lists ONLY the Command (node 4) whose write — through the
+Integer 3 into the NoCache register 2 at address 1 — lands inside its range. -/
+def exGraphE : Graph :=
+  [ .port,
+    .reg ⟨.int .le .unsigned, 0, none, 2, .writeThrough, .rw, [4], 0⟩,
+    .reg ⟨.int .le .unsigned, 1, none, 1, .noCache, .rw, [], 0⟩,
+    .integer 2 [],
+    .command 3 7 ]
+
+/-- write attempt 0 is applied, its acknowledge lost -/
+def exDevE : Dev := ⟨[1, 2, 0xAA, 0xBB], [], [], [], [(0, (1, []))], 0, []⟩
+
+example : ¬ Declared Profile.dev exGraphE := by decide
+example : opOk Profile.dev exGraphE (.execute 4) = true ∧ protectedOf exGraphE 3 1 = true ∧
+    DeclaredFor Profile.dev exGraphE [.value 1, .execute 4, .value 1, .isDone 4] := by decide
+
+/-- `execute` reports the device error, the device holds the command value, and the dependent
+register is re-read from the device (not served stale) — in both builds -/
+example :
+    (runHist defaultCache Profile.dev exGraphE (initDefault exGraphE exDevE)
+      [.value 1, .execute 4, .value 1, .isDone 4]).1 =
+      [.ok (.int 0x0201), .err .device, .ok (.int 0x0701), .ok (.bool false)] ∧
+    (runHist sinkCache Profile.dev exGraphE (initSink exDevE)
+      [.value 1, .execute 4, .value 1, .isDone 4]).1 =
+      [.ok (.int 0x0201), .err .device, .ok (.int 0x0701), .ok (.bool false)] ∧
+    (runHist defaultCache Profile.dev exGraphE (initDefault exGraphE exDevE)
+      [.value 1, .execute 4]).2.dev.mem = [1, 7, 0xAA, 0xBB] := by
+  decide +kernel
+
+/-! ## 11. Registers whose cache key varies (node-valued `<pLength>` / `<pAddress>` …)
+
+The cache is keyed by `(nid, address, length)` (`store.rs`), and `RegisterBase` evaluates
+`length` and `address` at every access (`register_base.rs:77-78, 121-129`).  The primitives of
+the model take the register record and the address as ARGUMENTS, so an access of a register with
+node-valued length `L` / address `a` is the primitive run with `{ r with len := L }` at `a`.
+The theorems of this section hold at every key — no `KeyAddr`, no `KeysOk`, no description. -/
+
+/-- **dynkey_read**: in a coherent state a read of register `n` at ANY key `(a, r.len)` returns,
+when it succeeds, exactly the bytes the device holds for that range now (whether served from the
+cache — e.g. from an entry cached before the key changed away and back — or read), leaves the
+cache coherent and the device bytes unchanged. -/
+theorem dynkey_read {g : Graph} {s : St Store} (hC : Coherent s.cache s.dev) (n : NodeId) (r : Reg)
+    (a : Int) :
+    (∀ bs, (cachedRead defaultCache g n r a s).1 = .ok bs → s.dev.peek a r.len = some bs) ∧
+      Coherent (cachedRead defaultCache g n r a s).2.cache (cachedRead defaultCache g n r a s).2.dev ∧
+      (cachedRead defaultCache g n r a s).2.dev.mem = s.dev.mem :=
+  ⟨fun _ h => cachedRead_anykey_device hC n r a h, cachedRead_anykey_coherent hC n r a⟩
+
+/-- **dynkey_write**: a write through register `n` at ANY key keeps the cache coherent — for all
+three modes, an accepted / rejected / partially applied device write and a `pPort` that is not a
+port — provided it is covered (`WriteCovered`): every cache entry whose range meets the written
+range belongs to a register that lists `n` or `n`'s port, or to `n` itself (the write drops every
+entry of `n`, under whatever key — F-C04-4). -/
+theorem dynkey_write {g : Graph} {s : St Store} (hC : Coherent s.cache s.dev) (n : NodeId) (r : Reg)
+    (a : Int) (buf : Bytes) (hlen : buf.length = r.len) (hW : WriteCovered s.cache n r a) :
+    Coherent (writeAt defaultCache g n r a buf s).2.cache (writeAt defaultCache g n r a buf s).2.dev :=
+  writeAt_anykey_coherent hC n r a buf hlen hW
+
+/-- What a description must declare for `WriteCovered`: every OTHER register that owns a cache
+entry (meeting the written range) lists the writer or the writer's port.  The writer need not
+list itself, whatever keys it has been cached under. -/
+theorem dynkey_covered {c : Store} {n : NodeId} {r : Reg} (a : Int) :
+    ((∀ t a' l' bs, t ≠ n → c.get t a' l' = some bs → t ∈ c.targets n ∨ t ∈ c.targets r.port) →
+      WriteCovered c n r a) ∧
+    ((∀ t a' l' bs, t ≠ n → c.get t a' l' = some bs → overlaps a r.len a' l' = true →
+        t ∈ c.targets n ∨ t ∈ c.targets r.port) → WriteCovered c n r a) :=
+  ⟨writeCovered_of_all_listed a, writeCovered_of_overlapping_listed⟩
+
+/-- The history of finding F-C04-4 (repaired in /repo, commit f43c726; the harness' self-key
+probe keeps replaying it on the real code): a WriteThrough IntReg at address 8 whose length is 4,
+then 2, then 4 again.  Read at `(8,4)`; write `22 22` at `(8,2)`; read at `(8,4)`.
+`invs` is the register's own `pInvalidator` list. -/
+def exDynKey (invs : List NodeId) : R Bytes × Option Bytes :=
+  let r4 : Reg := ⟨.int .le .unsigned, 8, none, 4, .writeThrough, .rw, invs, 0⟩
+  let r2 : Reg := { r4 with len := 2 }
+  let g : Graph := [.port, .reg r4]
+  let s0 := initDefault g ⟨[4, 0, 0, 0, 0, 0, 0, 0, 0x11, 0x11, 0x11, 0x11, 0, 0, 0, 0], [], [], [], [], 0, []⟩
+  let s1 := (cachedRead defaultCache g 1 r4 8 s0).2
+  let s2 := (writeAt defaultCache g 1 r2 8 [0x22, 0x22] s1).2
+  ((cachedRead defaultCache g 1 r4 8 s2).1, s2.dev.peek 8 4)
+
+/-- whatever the register declares — nothing, itself, its port — the second read returns what the
+device holds (`22 22 11 11`); before the repair the undeclared case returned the stale
+`11 11 11 11` cached under the old key -/
+example : exDynKey [] = (.ok [0x22, 0x22, 0x11, 0x11], some [0x22, 0x22, 0x11, 0x11]) ∧
+    exDynKey [1] = (.ok [0x22, 0x22, 0x11, 0x11], some [0x22, 0x22, 0x11, 0x11]) ∧
+    exDynKey [0] = (.ok [0x22, 0x22, 0x11, 0x11], some [0x22, 0x22, 0x11, 0x11]) := by
+  decide +kernel
+
+/-! ## 12. Sequences of accesses at varying keys (`Model.CacheDyn`, tied to the real code)
+
+`runKSteps` runs register accesses at explicit keys: `value` (= `with_cache_or_read` +
+`int_from_slice`), raw `write`, raw `read`, `clear_cache`, and `skip` (a `set_value` of a
+value-store node — how the key sources change).  The harness' dyn-key stream generates
+descriptions whose `<pLength>` / `<pAddress>` name value-store Integers, drives the REAL code
+through the node API (both builds) and compares results, image and log with `runKSteps`.
+`AllListed g` (decidable, `Cache.allListedB`): every cachable register lists every OTHER register
+of the description or that register's port. -/
+
+/-- **dynkey_steps_coherent**: on every `AllListed` description, device (image and rejection
+plan) and sequence of accesses at ARBITRARY, varying keys, the cache stays coherent (every entry,
+under whatever key it was cached, equals the bytes the device holds now), the invalidator table
+stays complete and entries belong to cachable registers. -/
+theorem dynkey_steps_coherent (g : Graph) (hA : AllListed g) (d : Dev) (ks : List KStep) :
+    DynInv g (runKSteps defaultCache g (initDefault g d) ks).2.cache
+        (runKSteps defaultCache g (initDefault g d) ks).2.dev ∧
+      Coherent (runKSteps defaultCache g (initDefault g d) ks).2.cache
+        (runKSteps defaultCache g (initDefault g d) ks).2.dev :=
+  have := dynInv_steps hA ks (dynInv_init g d)
+  ⟨this, this.coherent⟩
+
+/-- … and every single step preserves the invariant from any state. -/
+theorem dynkey_step_preserves {g : Graph} (hA : AllListed g) (k : KStep) {s : St Store}
+    (hI : DynInv g s.cache s.dev) :
+    DynInv g (runKStep defaultCache g k s).2.cache (runKStep defaultCache g k s).2.dev :=
+  dynInv_step hA k hI
+
+/-- **dynkey_value_is_device**: hence, after any such sequence, a successful `value` of a
+register at ANY key — the key it had before its sources changed away and back included — is the
+decoding of the bytes the device holds for that range now, i.e. what the build without a cache
+returns for the same access. -/
+theorem dynkey_value_is_device (g : Graph) (hA : AllListed g) (d : Dev) (ks : List KStep)
+    {n : NodeId} {a : Int} {len : Nat} {v : Val} {s' : St Store}
+    (h : runKStep defaultCache g (.value n a len) (runKSteps defaultCache g (initDefault g d) ks).2 =
+      (.ok v, s')) :
+    ∃ r e sg bs i, g[n]? = some (.reg r) ∧ r.kind = .int e sg ∧
+      (runKSteps defaultCache g (initDefault g d) ks).2.dev.peek a len = some bs ∧
+      intFromSlice bs e sg = .ok i ∧ v = .int i :=
+  kstep_value_device (dynkey_steps_coherent g hA d ks).2 h
+
+/-- the description of `exDynKey`: a single register is `AllListed` whatever it lists; two
+overlapping registers must list each other (or the port) -/
+def exGraphK (invs : List NodeId) : Graph :=
+  [.port, .reg ⟨.int .le .unsigned, 8, none, 4, .writeThrough, .rw, invs, 0⟩]
+
+example : AllListed (exGraphK []) ∧ AllListed (exGraphK [1]) ∧ AllListed (exGraphK [0]) := by decide
+example : ¬ AllListed (exGraphK [] ++ [.reg ⟨.int .le .unsigned, 9, none, 2, .writeAround, .rw, [1], 0⟩]) ∧
+    AllListed (exGraphK [2] ++ [.reg ⟨.int .le .unsigned, 9, none, 2, .writeAround, .rw, [1], 0⟩]) := by
+  decide
+
+/-- the history of the harness' self-key probe as steps (length 4 → 2 → 4 at address 8): the
+last read returns the device bytes in both builds (F-C04-4 repaired; before, the cached build
+returned the stale `0x11111111`) -/
+example :
+    let d : Dev := ⟨[4, 0, 0, 0, 0, 0, 0, 0, 0x11, 0x11, 0x11, 0x11, 0, 0, 0, 0], [], [], [], [], 0, []⟩
+    let ks : List KStep := [.value 1 8 4, .skip, .write 1 8 [0x22, 0x22], .skip, .value 1 8 4]
+    (runKSteps defaultCache (exGraphK []) (initDefault (exGraphK []) d) ks).1 =
+        [.ok (.int 0x11111111), .ok .unit, .ok .unit, .ok .unit, .ok (.int 0x11112222)] ∧
+      (runKSteps sinkCache (exGraphK []) (initSink d) ks).1 =
+        [.ok (.int 0x11111111), .ok .unit, .ok .unit, .ok .unit, .ok (.int 0x11112222)] ∧
+      (runKSteps defaultCache (exGraphK []) (initDefault (exGraphK []) d) ks).2.dev.log.length = 3 := by
   decide +kernel
 
 end CamVerif.C04
